@@ -2,6 +2,8 @@ from __future__ import annotations
 
 from .bv import BVV
 
+_DIGITS_PER_CHUNK = 1000
+
 
 class StringV:
     """A concrete string value. Used in the concrete backend for calculations.
@@ -155,7 +157,12 @@ def StrToInt(input_string):
     # whitespace, underscores and non-ASCII digits
     if not (value.isascii() and value.isdigit()):
         return BVV(-1, 64)
-    return BVV(int(value), 64)
+    # in chunks: int() refuses more digits than sys.get_int_max_str_digits() allows (4300 by default)
+    number = 0
+    for start in range(0, len(value), _DIGITS_PER_CHUNK):
+        chunk = value[start : start + _DIGITS_PER_CHUNK]
+        number = number * 10 ** len(chunk) + int(chunk)
+    return BVV(number, 64)
 
 
 def StrIsDigit(input_string):
@@ -177,4 +184,13 @@ def IntToStr(input_bvv):
 
     :return:                        the string representation of the integer
     """
-    return StringV(str(input_bvv.value))
+    # in chunks, for the same limit on the way back
+    number = input_bvv.value
+    digits = []
+    while True:
+        number, chunk = divmod(number, 10**_DIGITS_PER_CHUNK)
+        if number == 0:
+            digits.append(str(chunk))
+            break
+        digits.append(str(chunk).zfill(_DIGITS_PER_CHUNK))
+    return StringV("".join(reversed(digits)))
